@@ -199,7 +199,8 @@ impl<'a> StateMachine<'a> {
                     self.config.max_line_length,
                 );
                 self.raw_line = raw_line[..truncated_len].to_string();
-                self.line.clone_from(&self.raw_line);
+                // As for valid UTF-8 input: `line` is `raw_line` without escape sequences.
+                self.line = ansi::strip_ansi_codes(&self.raw_line);
             }
         }
     }
